@@ -43,9 +43,13 @@ pub fn phonetic_tables(first: char) -> &'static [&'static str] {
     }
 }
 
+/// the keys of the emoticon table, for oracles that have no `Data` at hand
+pub static EMOTICON_KEYS: std::sync::OnceLock<HashSet<String>> = std::sync::OnceLock::new();
+
 impl Data {
     pub fn load() -> Data {
         let rd = |n: &str| std::fs::read(format!("{}/{}", DATA_DIR, n)).unwrap();
+        let _ = EMOTICON_KEYS.set(emojicon::internal::emoticons().keys().map(|k| k.to_string()).collect());
         Data {
             dictionary: serde_json::from_slice(&rd("dictionary.json")).unwrap(),
             suffix: serde_json::from_slice(&rd("suffix.json")).unwrap(),
@@ -111,12 +115,13 @@ pub struct Trace {
     known_bijoy: HashSet<String>,
     known_json: HashSet<u64>,
     pub lines: u64,
+    pub tsv_dir: PathBuf,
 }
 
 impl Trace {
     pub fn create(path: &Path, tsv_dir: &Path) -> Trace {
         let mut t = Trace { out: BufWriter::new(std::fs::File::create(path).unwrap()), path: path.to_path_buf(),
-                            known_dict: HashSet::new(), known_bijoy: HashSet::new(), known_json: HashSet::new(), lines: 0 };
+                            known_dict: HashSet::new(), known_bijoy: HashSet::new(), known_json: HashSet::new(), lines: 0, tsv_dir: tsv_dir.to_path_buf() };
         for k in ["suffix", "autocorrect", "emoticon", "emojiname", "emojibn", "dictionary"] {
             t.line(&format!("load {} {}", k, tsv_dir.join(format!("{}.tsv", k)).display()));
         }
@@ -135,6 +140,8 @@ impl Trace {
         }
         f.flush().unwrap();
         self.line(&format!("layout {} {}", esc(layout_path), p.display()));
+        // tie for the Lean reader of layout files (Model/JsonValue): the bytes of the file and what riti's steps make of them
+        crate::layoutdoc::emit_layout_read(self, &std::fs::read(layout_path).unwrap());
     }
     pub fn need_dict(&mut self, data: &Data, word: &str) {
         if self.known_dict.insert(word.to_string()) {
@@ -235,6 +242,8 @@ pub struct Sess<'a> {
     pub events: Vec<String>,
     /// `type_text` passes the index selected in the list on display (as a front-end does) instead of 0
     pub follow_sel: bool,
+    /// how many leading events `clear_events` keeps (the route of a routed context)
+    pub keep: usize,
 }
 
 pub fn emit_fs(t: &mut Trace, xdg: &Path) {
@@ -291,7 +300,7 @@ impl<'a> Sess<'a> {
                 imp.describe(&format!("layout={} opts={} xdg={}", layout, opts.bits_str(), xdg.display()));
                 let on = imp.ongoing();
                 t.line(&format!("> N {}", if on { 1 } else { 0 }));
-                Some(Sess { id: id.into(), imp, layout: layout.into(), opts, xdg: xdg.to_path_buf(), data, last: Obs::Unit, events: vec![], follow_sel: true })
+                Some(Sess { id: id.into(), imp, layout: layout.into(), opts, xdg: xdg.to_path_buf(), data, last: Obs::Unit, events: vec![], follow_sel: true, keep: 0 })
             }
             None => { t.line("> PANIC"); None }
         }
@@ -309,6 +318,25 @@ impl<'a> Sess<'a> {
             _ => {}
         }
     }
+    /// create the context by a ROUTE (property C11 says every route gives the same engine): 0 = directly; 1 = as the OTHER method
+    /// (Probhat for a phonetic target, phonetic for a fixed one) with the same options, then update_engine to the target;
+    /// 2 = same layout but with both suggestion lists off and ANSI / English / smart quotes flipped, then update_engine; 3 = both.
+    /// The trace holds `new` + `update`; the recorded events start with `born <layout> <bits>` so that a replay takes the same route.
+    pub fn new_routed(t: &mut Trace, data: &'a Data, id: &str, layout: &str, opts: Opts, xdg: &Path, route: usize) -> Option<Sess<'a>> {
+        let route = route % 4;
+        if route == 0 { return Sess::new(t, data, id, layout, opts, xdg); }
+        let l0 = if route & 1 == 1 { if layout == PHONETIC { PROBHAT } else { PHONETIC } } else { layout };
+        let mut o0 = opts;
+        if route & 2 == 2 { o0.phonetic_suggestion = false; o0.fixed_suggestion = false; o0.ansi = !opts.ansi; o0.english = !opts.english; o0.smart_quote = !opts.smart_quote; }
+        if l0 != PHONETIC && l0 != layout { let d = t.tsv_dir.clone(); t.layout(l0, &d); }
+        let mut s = Sess::new(t, data, id, l0, o0, xdg)?;
+        s.events.push(format!("born {} {}", l0, o0.bits_str()));
+        s.keep = 2;
+        if s.update(t, layout, opts) == Obs::Panic { return None; }
+        Some(s)
+    }
+    /// forget the recorded events of the words that are over (the `born` + `update` head of a routed context stays)
+    pub fn clear_events(&mut self) { self.events.truncate(self.keep); }
     pub fn key(&mut self, t: &mut Trace, code: u16, m: u8, sel: u8) -> Obs {
         let o = self.imp.key(code, m, sel);
         let on = if o == Obs::Panic { false } else { self.imp.ongoing() };
